@@ -450,8 +450,16 @@ def semantic_php_action(prog):
         return None, "PHPArgs.__call__ not found"
     mod = prog.modules["cnfgen.clihelpers.php_helpers"]
     mfuncs = {q: fi.node for q, fi in mod.functions.items() if "." not in q}
-    cases = [(["5"], (6, 5, 5), False), (["0"], (1, 0, 0), False), (["5", "4"], (5, 4, 4), False), (["3", "7"], (3, 7, 7), False),
-             (["5", "4", "3"], (5, 4, 3), False), (["5", "4", "4"], (5, 4, 4), False), (["5", "4", "6"], None, True)]
+    cases = [(["5"], (6, 5, 5), False), (["5", "4"], (5, 4, 4), False), (["3", "7"], (3, 7, 7), False), (["5", "4", "6"], None, True),
+             (["1", "2", "3", "4"], None, True), (["-1"], None, True), (["2", "-1"], None, True)]
+    # every combination of small numbers, zeros included (`php M N 0` is the principle on the graph without edges)
+    import itertools as _it
+    for n_ in range(0, 4):
+        cases.append(([str(n_)], (n_ + 1, n_, n_), False))
+    for m_, n_ in _it.product(range(0, 4), repeat=2):
+        cases.append(([str(m_), str(n_)], (m_, n_, n_), False))
+    for m_, n_, d_ in _it.product(range(0, 4), repeat=3):
+        cases.append(([str(m_), str(n_), str(d_)], (m_, n_, d_) if d_ <= n_ else None, d_ > n_))
     for values, want, err in cases:
         ns = types.SimpleNamespace()
 
